@@ -268,6 +268,13 @@ func (c *fnCtx) function() {
 			if f := rootField(v.X); f != "" {
 				sc.fieldsMut[f] = true
 			}
+		case *ast.BinaryExpr:
+			if f := objNilOperand(v, isRecvIdent); f != "" && c.objs[f] != nil {
+				// m.f == nil on an object field: a flag of its own (fn_rest.go)
+				needExtras = append(needExtras, [2]string{"objnil:" + f, f + "_nil"})
+				sc.fieldsUsed[f] = true
+				return false
+			}
 		case *ast.SelectorExpr:
 			if isRecvIdent(v.X) {
 				if ft, isField := fieldTypes[v.Sel.Name]; isField {
@@ -1253,6 +1260,10 @@ func (c *fnCtx) effects(nodes ...ast.Node) effSet {
 				}
 			case *ast.Ident:
 				rd(c.lookup(v))
+			case *ast.BinaryExpr:
+				if f := objNilOperand(v, c.isRecv); f != "" && c.extras["objnil:"+f] != nil {
+					rd(c.extras["objnil:"+f])
+				}
 			case *ast.SelectorExpr:
 				if c.isRecv(v.X) {
 					rd(c.fields[v.Sel.Name])
@@ -1762,6 +1773,9 @@ func (c *fnCtx) binary(v *ast.BinaryExpr, pre *[]fnBind) (string, *fnType) {
 		return tm, tyBool
 	}
 	if s, ok := c.funcNilTest(v); ok {
+		return s, tyBool
+	}
+	if s, ok := c.objNilTest(v); ok {
 		return s, tyBool
 	}
 	x, xt := c.expr(v.X, pre)
